@@ -115,6 +115,15 @@ func (c *C05Conn) Close() error {
 	return nil
 }
 
+// CloseWrite closes only this end's sending direction (like shutdown(SHUT_WR)):
+// the peer reads EOF after draining, while its own writes still succeed.
+func (c *C05Conn) CloseWrite() {
+	c.wr.mu.Lock()
+	c.wr.wclose = true
+	c.wr.cond.Broadcast()
+	c.wr.mu.Unlock()
+}
+
 // IsClosed reports whether this end was closed by its owner.
 func (c *C05Conn) IsClosed() bool { c.dmu.Lock(); defer c.dmu.Unlock(); return c.closed }
 
